@@ -13,7 +13,7 @@ CTYPE = {"i1": "int8_t", "i2": "int16_t", "i4": "int32_t", "i8": "int64_t", "u1"
          "f4": "float", "f8": "double"}
 DTYPE = {"N": "nm::None", "i4": "nm::int32", "i8": "nm::int64", "f4": "nm::float32", "f8": "nm::float64", "u8": "nm::uint64"}
 DTYPE_T = {"N": "nm::none_t", "i4": "nm::dtype::int32_t", "i8": "nm::dtype::int64_t", "f4": "nm::dtype::float32_t", "f8": "nm::dtype::float64_t"}
-AK = {"I": "AxI", "L": "AxL", "N": "AxN"}
+AK = {"I": "AxI", "L": "AxL", "N": "AxN", "C": "AxC"}   # C = compile-time int axis (meta::ct_v<k>, k in -3..2)
 KK = {"T": "KT", "F": "KF", "R": "KR"}
 IK = {"N": "IN", "Y": "IY"}
 
@@ -92,6 +92,17 @@ for fam, op, T, dt, hdr in (("cumsum", "add", "i4", "N", "nmtools/array/view/cum
     call = "view::%s(a, axis%s)" % (fam, "" if dt == "N" else ", " + DTYPE[dt])
     OPS.append(dict(name="acc_%s_%s_d%s" % (fam, T, dt), grp="accum", kind="accumulate", fam=fam, op=op, T=T, R=T if dt == "N" else dt, dtype=dt, call=call,
                     sf=functor(op, dt), hdr=hdr, npop=op, data=DATA[op]))
+# ---- compile-time axis (meta::ct_v<k>): the constant-index branches of the reduction / accumulation index helpers (group 'ct')
+for op, T, dt, i, k in (("add", "i4", "N", "N", "F"), ("add", "i4", "i8", "Y", "T"), ("add", "f8", "N", "N", "R"), ("multiply", "i4", "N", "Y", "F"),
+                        ("maximum", "i4", "N", "N", "T"), ("minimum", "f8", "f8", "Y", "F")):
+    add_reduce("ct", op, op, T, "C", dt, i, k, "view::reduce_%s(a, axis, %s, initial, keepdims)" % (op, DTYPE[dt]), functor(op, dt), H % op, op, DATA[op])
+add_reduce("ct", "sum", "add", "i4", "C", "N", "N", "F", "view::sum(a, axis, nm::None, initial, keepdims)", functor("add", "N"), "nmtools/array/view/sum.hpp", "add", "labels", prefix="wr")
+add_reduce("ct", "prod", "multiply", "i4", "C", "f8", "N", "T", "view::prod(a, axis, nm::float64, initial, keepdims)", functor("multiply", "f8"), "nmtools/array/view/prod.hpp", "multiply", "pm12", prefix="wr")
+for fam, op, T, dt, hdr in (("cumsum", "add", "i4", "N", "nmtools/array/view/cumsum.hpp"), ("cumprod", "multiply", "i4", "N", "nmtools/array/view/cumprod.hpp"),
+                            ("cumsum", "add", "i4", "f8", "nmtools/array/view/cumsum.hpp")):
+    call = "view::%s(a, axis%s)" % (fam, "" if dt == "N" else ", " + DTYPE[dt])
+    OPS.append(dict(name="acc_%s_%s_d%s_aC" % (fam, T, dt), grp="ct", kind="accumulate_ct", fam=fam, op=op, T=T, R=T if dt == "N" else dt, dtype=dt, call=call,
+                    sf=functor(op, dt), hdr=hdr, npop=op, data=DATA[op], axis="C"))
 # ---- named wrappers: sum / prod
 for fam, op, hdr in (("sum", "add", "nmtools/array/view/sum.hpp"), ("prod", "multiply", "nmtools/array/view/prod.hpp")):
     for T, dts in (("i4", ("N", "i8", "f8")), ("f8", ("N", "f4", "f8"))):
@@ -150,7 +161,7 @@ for T, dt in (("i4", "N"), ("f8", "N"), ("i4", "f8")):
 OPS.append(dict(name="wr_trace0_i4", grp="wrap_c", kind="trace0", fam="trace", op="add", T="i4", R="i4", dtype="N",
                 call="view::trace(a)", sf=functor("add", "N"), hdr="nmtools/array/view/trace.hpp", npop="add", data="labels"))
 
-GROUPS = ["add", "ops_i", "ops_f", "generic", "accum", "wrap_a", "wrap_b", "wrap_v", "wrap_s", "wrap_c"]
+GROUPS = ["add", "ops_i", "ops_f", "generic", "accum", "wrap_a", "wrap_b", "wrap_v", "wrap_s", "wrap_c", "ct"]
 HARNESS = ["c08_" + g for g in GROUPS]
 BY_NAME = {o["name"]: o for o in OPS}
 assert len(BY_NAME) == len(OPS), "duplicate op names"
@@ -190,6 +201,9 @@ def generate():
             elif k == "accumulate":
                 vf = "[](const auto& a, int axis){ return %s; }" % o["call"]
                 body = "accumulate_case<%s,%s>(in, out, %s, %s);" % (T, CTYPE[o["R"]], vf, o["sf"])
+            elif k == "accumulate_ct":
+                vf = "[](const auto& a, auto axis){ return %s; }" % o["call"]
+                body = "accumulate_case_ct<%s,%s>(in, out, %s, %s);" % (T, CTYPE[o["R"]], vf, o["sf"])
             elif k == "var":
                 vf = "[](const auto& a, const auto& axis, size_t ddof, auto keepdims){ return %s; }" % o["call"]
                 body = "var_case<%s,%s,%s,%s,%s>(in, out, %s);" % (T, DTYPE_T[o["dtype"]], o["sqrt"], AK[o["axis"]], KK[o["keep"]], vf)
